@@ -24,7 +24,8 @@ REQUIRED = {'mv-index': 500, 'mv-coeff': 500, 'mv-identity': 500,
     'mv-dominant': 300, 'rect-index': 500, 'rect-coeff': 500,
     'rect-identity': 500, 'rect-rownorm': 200, 'reject': 200,
     '_maxvol': 200, 'nested-in-cross': 50}
-REQUIRED_EVENTS = {'swaps-observed': 100, 'limit-hit': 5, 'rows-added': 100}
+REQUIRED_EVENTS = {'swaps-observed': 100, 'limit-hit': 5, 'rows-added': 100,
+    'big-matrix': 10}
 ASSUMPTIONS = ['coefficient tolerance 100 eps (r + steps + 10) r max(1,|B|max) '
     '|A[I]|max (backward-stable construction, no conditioning factor)', 'swap count read by a line probe on '
     '"I[j] = i"; if the probe target is missing the dominance monitor is '
@@ -45,6 +46,11 @@ def gen_cases(seed, tier):
             'rows': ['plain', 'dup', 'zero', 'dupzero'][j % 4]})
     for j in range(40 if q else 600):
         out.append({'kind': 'cross', 'seed': int(rng.integers(1 << 62))})
+    # matrices of more than 2^20 entries (any internal blocking, temporaries
+    # and flat-index arithmetic of the rank-one update see several blocks)
+    for j in range(14 if q else 140):
+        out.append({'kind': 'big', 'seed': int(rng.integers(1 << 62)),
+            'r': [256, 300, 512, 1000, 400, 700, 350][j % 7]})
     return out
 
 
@@ -336,6 +342,27 @@ def run_matrix(case, ctx):
         'rect_max_rownorm': float(np.linalg.norm(B2, axis=1).max())})
 
 
+def run_big(case, ctx):
+    import teneva
+    rng = np.random.default_rng(case['seed'])
+    r = case['r']
+    # (the height stays below 6000: the routine's scipy.linalg.lu call builds
+    # a dense n x n permutation matrix, a resource limit of the original)
+    n = min(int((1 << 20) * rng.uniform(1.15, 2.6)) // r + 1, 6000)
+    A = rng.normal(size=(n, r))
+    # rows of graded size in random order: the dominant rows (the swaps) are
+    # spread over the whole height of the matrix
+    A *= (10.0 ** rng.uniform(-1.5, 0, size=n))[:, None]
+    if rng.random() < 0.3:
+        A = np.asfortranarray(A)
+    e = float(rng.choice([1.05, 1.5]))
+    k = int(rng.choice([3, 20, 100]))
+    teneva.maxvol(A, e, k)                  # judged by the interposer
+    ctx.event('big-matrix')
+    if r <= 300:
+        teneva.maxvol_rect(A, 1.1, 1, 3, e, k)
+
+
 def run_cross(case, ctx):
     """Nested calls: TT-cross drives _maxvol / maxvol / maxvol_rect."""
     import teneva
@@ -356,4 +383,5 @@ def run_cross(case, ctx):
 
 
 def run_case(case, ctx):
-    (run_matrix if case['kind'] == 'matrix' else run_cross)(case, ctx)
+    {'matrix': run_matrix, 'cross': run_cross, 'big': run_big}[case['kind']](
+        case, ctx)
